@@ -336,6 +336,22 @@ def run(ctx):
             if not ok:
                 r3b.violate("C15|R3b|%s" % sname, "%s writes the multipart Content-Type %r, which does not contain what the reader splits on (%s): the boundary of a response the library wrote cannot be found when it is read back" % (sname, tx, sorted(reader_lits)), fn0.file, fn0.span["line"], sname)
 
+    # ---- R4b a table that is searched by bisection is sorted by the key it is searched for
+    r4b = chk.rule("R4b-bisected-table-is-sorted", "where the status lookup uses binary_search* over a constant table of the status entries, the table is strictly ascending in status_code (an entry out of order is never found: its status line no longer reads back)", floor=0)
+    from .c14 import items_mentioned as _items
+    for bn, bf in sorted(F.fns.items()):
+        if bf.crate != "rws" or bf.kind == "Promoted" or not any(re.search(r"::binary_search(_by|_by_key)?$", callee_name(t_) or "") for _, t_ in bf.calls()):
+            continue
+        for item_ in sorted(_items(F, ctx.inl(bf))):
+            rows_ = ((F.consts.get(item_) or {}).get("v") or {}).get("fields") if isinstance((F.consts.get(item_) or {}).get("v"), dict) else None
+            if not (isinstance(rows_, dict) and len(rows_) >= 2 and all(isinstance(r_, dict) and isinstance((r_.get("fields") or {}).get("status_code"), int) for r_ in rows_.values())):
+                continue
+            codes = [rows_[k_]["fields"]["status_code"] for k_ in sorted(rows_, key=lambda x: int(x) if str(x).isdigit() else 0)]
+            bad = [(codes[i_], codes[i_ + 1]) for i_ in range(len(codes) - 1) if codes[i_] >= codes[i_ + 1]]
+            r4b.instance({"fn": bn, "table": item_, "entries": len(codes), "out_of_order": bad}, not bad)
+            if bad:
+                r4b.violate("C15|R4b|%s|%s" % (item_, bad[0][1]), "%s is searched by bisection in %s but is not ascending: %d is listed before %d, so a response with status %d (or %d) is reported as unknown by the reader although the writer emits it" % (item_, bn, bad[0][0], bad[0][1], bad[0][1], bad[0][0]), bf.file, bf.span["line"], bn)
+
     # ---- R2d a part body ends at a boundary line, or the reader reports an error
     r2d = chk.rule("R2d-part-body-ends-at-a-boundary", "in the multipart/byteranges reader the loop that collects a part body is left either where the boundary test has succeeded or towards an Err return: running out of input is never a way to a stored part (a truncated body is not read back as a complete one)", floor=1)
     from .. import loops as L_
